@@ -51,8 +51,10 @@ CLAIMED = {
             'symbolic suspension point must preserve the invariant, mutate only under the lock, never suspend holding it and leave it free; '
             '(2) wake-up and waiter-count steps; (3) schedule exploration on a choice-driven asyncio loop: every scheduler decision of N '
             'clients on one HostPool is symbolic (all schedules), and on the ConnectionPool all schedules within a preemption bound of 2, '
-            'with cancellation at a symbolic step and remote close. Safety rests on (1); liveness/leak-freedom on (3).',
-            'Trusts harness/aio.py (hand driver, ChoiceLoop), stub connections, asyncio itself; bounds N<=2 (thorough 3), M<=2, H<=2, one '
+            'with cancellation at a symbolic step and remote close; three clients on one HostPool within a preemption bound (lost wake-ups); '
+            'sessions through the HTTP proxy pool whose connection set-up fails. Safety rests on (1); liveness/leak-freedom on (3).',
+            'Trusts harness/aio.py (hand driver, ChoiceLoop), stub connections, asyncio itself; bounds: all schedules N<=2 (thorough 3), N=3 under a '
+            'preemption bound, M<=2, H<=2, one '
             'cancellation per run; schedule leaves are concrete runs enumerated by the solver.',
             'DESIGN.md 3/C12', 'pre-state, cancellation point and scheduler decisions symbolic'),
     'C13': ('other',
